@@ -180,7 +180,7 @@ pub fn gen_name(g: &mut Gen, hostile: bool, taken: &dyn Fn(&str) -> bool) -> Str
             if g.chance(1, 6) {
                 // synthesised: 1-4 pieces of hostile fragments
                 let k = g.usize_in(1, 4);
-                (0..k).map(|_| *g.pick(HOSTILE_NAMES)).collect::<Vec<_>>().join("")
+                (0..k).map(|_| g.pick(HOSTILE_NAMES)).collect::<Vec<_>>().join("")
             } else {
                 g.pick(HOSTILE_NAMES).to_string()
             }
@@ -271,7 +271,7 @@ pub fn gen_tree(g: &mut Gen, root: &str, p: &TreeParams) -> TreeSpec {
         };
         let mut node = Node::new(path, kind);
         if node.kind == Kind::File {
-            node.size = *g.pick(&[0u64, 0, 1, 5, 512, 513, 1024, 4096]);
+            node.size = g.pick(&[0u64, 0, 1, 5, 512, 513, 1024, 4096]);
         }
         if p.random_modes && !matches!(node.kind, Kind::Link(_) | Kind::Hard(_)) {
             node.mode = Some(g.below(0o10000) as u32);
